@@ -64,7 +64,11 @@ func init() {
 	})
 	reg(RT+".Choose", func(in *Interp, fr *frame, args []Value) Value {
 		n := cint(in, args[1], "Choose n")
-		return in.tb.Const(64, uint64(in.Choose(n)))
+		v := in.Choose(n)
+		if n > 1 {
+			in.path.choiceTags = append(in.path.choiceTags, fmt.Sprintf("%s=%d/%d", str(in, args[0]), v, n))
+		}
+		return in.tb.Const(64, uint64(v))
 	})
 	reg(RT+".Assume", func(in *Interp, fr *frame, args []Value) Value {
 		in.assume(args[0].(*Term))
